@@ -426,7 +426,11 @@ def buffer_forms(g, structs, prefer=None):
     writable = (g.kind == "buffer" and g.space == "storage" and g.access == "read_write") or \
         g.kind in ("private", "workgroup")
     out = []
-    if atomic:
+    if atomic and kind == "f32":
+        if writable:
+            out.append(("atomic_load", "atomicLoad(&%s)" % lv, None))
+            out.append(("atomic_store", None, "atomicStore(&%s, 3.0);" % lv))
+    elif atomic:
         if writable:
             out.append(("atomic_load", "f32(atomicLoad(&%s))" % lv, None))
             out.append(("atomic_rmw", "f32(atomicAdd(&%s, %s(1)))" % (lv, kind),
